@@ -73,6 +73,20 @@ Stationary(f, x, w, a, c, r0) ==
   IN /\ \E i \in 1..Len(rw) : rw[i] # 0
      /\ \A j \in 1..(f.M + f.P) : Dot(Col(Hw, j), rw) = 0
 
+(* ---------------- scaling law ---------------- *)
+(* Scaling the residual r0 by t (y = Phi c + t r0) keeps the point stationary, multiplies |rw|^2 by  *)
+(* t^2 and leaves H, adj(H^T H), det and the quadratic forms unchanged: chi2 and Cov scale by t^2,   *)
+(* the band radius by |t|, the correlation matrix not at all.  Checked here for integer t; the       *)
+(* replay uses it with t = 2^-k (exact in binary floating point) to reach covariances of size 1e-18. *)
+ScaleLaw(f, x, w, a, c, r0, t) ==
+  LET e1 == StatEval(f, x, w, a, c, r0)
+      r2 == [i \in 1..Len(r0) |-> t * r0[i]]
+      e2 == StatEval(f, x, w, a, c, r2)
+  IN (e1.lvl = 1 /\ e2.lvl = 1 /\ SatMul(t * t, e1.rr) < Limit) =>
+       /\ Stationary(f, x, w, a, c, r2)
+       /\ e2.rr = t * t * e1.rr
+       /\ e2.adj = e1.adj /\ e2.detH = e1.detH /\ e2.quad = e1.quad
+
 (* ---------------- theorems about the definitions ---------------- *)
 CovSym(e) == e.lvl = 1 => \A i, j \in 1..Len(e.adj) : e.adj[i][j] = e.adj[j][i]
 CovDiagNonNeg(e) == e.lvl = 1 => (e.detH > 0 /\ \A i \in 1..Len(e.adj) : e.adj[i][i] > 0)
